@@ -34,6 +34,21 @@ def handle (op : String) (args : List String) : String :=
   | "aggT", [e] => match parseExpr e with
     | some e => okE (aggT e)
     | none => bad
+  | "extractMD", [e] => match parseExpr e with
+    | some e => (match extractMetadata e with
+      | .ok (e', mds) => "ok\t" ++ (SExpr.list [e'.toSExpr, .list (PyVal.toSExprL mds)]).render
+      | .error err => "err\t" ++ err.render)
+    | none => bad
+  | "removeEmptyMD", [e] => match parseExpr e with
+    | some e => (match removeEmptyMD e with
+      | .ok e' => okE e'
+      | .error err => "err\t" ++ err.render)
+    | none => bad
+  | "literalEval", [e] => match parseExpr e with
+    | some e => (match literalEval e with
+      | .ok v => "ok\t" ++ v.toSExpr.render
+      | .error err => "err\t" ++ err.render)
+    | none => bad
   | "ev", [ds, env, e] => match parseVal ds, parseEnv env, parseExpr e with
     | some ds, some env, some e => resStr (ev (driverWorld ds) (Env.ofList env.reverse) e)
     | _, _, _ => bad
